@@ -16,7 +16,7 @@ VERIF = os.path.dirname(HERE)
 
 # failing function (module prefix) -> drivers
 DRIVERS = {
-    'utf8': ['decoder', 'utils'], 'input': ['decoder'], 'utils': ['utils', 'autocomplete', 'editor'],
+    'utf8': ['decoder', 'scalars', 'utils'], 'input': ['decoder', 'scalars'], 'utils': ['utils', 'autocomplete', 'editor'],
     'token': ['token'], 'arguments': ['token'], 'command': ['token', 'cli'], 'help': ['token', 'cli'],
     'editor': ['editor', 'cli'], 'history': ['history', 'cli'], 'autocomplete': ['autocomplete', 'cli'],
     'tmpl_autocomplete': ['cli', 'derive_hidden'], 'tmpl_group_autocomplete': ['derive_hidden', 'cli'], 'tmpl_group_help': ['derive_fail', 'derive_help', 'cli'], 'writer': ['writer', 'cli'], 'cli': ['cli'], 'builder': ['cli'], 'service': ['cli'],
@@ -73,7 +73,10 @@ def build(work, features=('history', 'autocomplete', 'help')):
     shutil.copy(os.path.join(VERIF, 'witness', 'Cargo.toml.in'), os.path.join(ws, 'witness', 'Cargo.toml'))
     open(os.path.join(ws, 'Cargo.toml'), 'w').write(
         '[workspace]\nresolver = "2"\nmembers = ["embedded-cli", "embedded-cli-macros", "witness"]\n\n'
-        '[workspace.package]\nlicense = "MIT OR Apache-2.0"\nedition = "2021"\n')
+        '[workspace.package]\nlicense = "MIT OR Apache-2.0"\nedition = "2021"\n\n'
+        # optimised, but with the run-time checks of a debug build: arithmetic overflow and the preconditions of the
+        # unchecked operations of core (unwrap_unchecked, get_unchecked, from_u32_unchecked ..) abort instead of being UB
+        '[profile.release]\ndebug-assertions = true\noverflow-checks = true\n')
     shutil.copy('/repo/Cargo.lock', os.path.join(ws, 'Cargo.lock'))
     # build cache: /verif/witness/target for /repo itself (recreated when absent); self-test runs against a scratch copy
     # of the sources (VERIF_REPO_SRC) get a private target directory so that concurrent runs cannot swap binaries
@@ -95,13 +98,19 @@ def build(work, features=('history', 'autocomplete', 'help')):
 
 def run_driver(binary, driver, seed, iters=20000, timeout=600):
     try:
+        # the output may quote ill-formed text the library produced: never let decoding fail
         p = subprocess.run([binary, driver, str(seed or 1), str(iters)], stdout=subprocess.PIPE, stderr=subprocess.PIPE,
-                           text=True, timeout=timeout)
+                           text=True, errors='backslashreplace', timeout=timeout)
     except subprocess.TimeoutExpired:
         return {'driver': driver, 'found': False, 'note': 'timeout'}
     line = (p.stdout.strip().split('\n') or [''])[-1]
     try:
         res = json.loads(line)
+        if res.get('expected') == 'no panic' and 'location' in res:
+            # printed by the panic hook of the driver: a panic / abort located in the library's own source is a witness
+            # (C03); a panic of the driver decides nothing
+            if not re.search(r'embedded-cli/src/', res['location']):
+                res = {'driver': driver, 'found': False, 'note': 'driver panic (not counted): ' + res.get('actual', '')[:300]}
     except Exception:
         # a panic located in the library's own source is a witness too (C03); a panic of the driver decides nothing
         err = (p.stderr or p.stdout)
@@ -145,7 +154,7 @@ def attributed_functions(res):
     """unit-name prefixes (units.json) of the real functions a counterexample of this driver speaks about"""
     d = res.get('driver', '').split(':')[0]
     inp = res.get('input', '')
-    if d == 'decoder':
+    if d in ('decoder', 'scalars'):
         return ['input::InputGenerator::', 'utf8::Utf8Accum::']
     if d == 'utils':
         m = re.match(r'(\w+)\(', inp)
@@ -179,10 +188,16 @@ def cex_props(res):
     act = str(res.get('actual', ''))
     if exp == 'no panic':
         return ['C03']
+    if exp.startswith('well-formed UTF-8 in every string the library hands out'):
+        # a string taken from the library is not UTF-8: C02, whatever else the driver was looking for (and the editing /
+        # carriage property the session was filtered to, whose ideal counterpart never holds ill-formed text)
+        return ['C02'] + ([d.split(':')[1]] if ':' in d and d.split(':')[1] in ('C05', 'C17', 'C03') else [])
     if ':' in d:
         return [d.split(':')[1]]
     if d == 'decoder':
-        return ['C02'] if 'ill-formed' in act else ['C04', 'C17']
+        return ['C02'] if 'ill-formed' in act else ['C04']
+    if d == 'scalars':
+        return ['C17', 'C02'] if 'ill-formed' in act else ['C17']
     if d == 'utils':
         for k, v in (('char_count', ['C05', 'C17']), ('char_byte_index', ['C05', 'C17']), ('char_pop_front', ['C08', 'C17']),
                      ('trim_start', ['C11']), ('common_prefix_len', ['C11', 'C17']), ('encode_utf8', ['C17'])):
